@@ -11,6 +11,8 @@ float (or ordered-field) reasoning is involved: classic mode never looks at a sc
 namespace Srtla.ClassicRef
 open Srtla Srtla.Gen Srtla.Conn Srtla.Select Srtla.Link Srtla.Sys Srtla.Spec.ClassicRef
 
+set_option linter.unusedSectionVars false
+
 variable {F : Type}
 
 /-! ## Score -/
@@ -234,7 +236,7 @@ theorem takeBatch_nonempty (l : FLink F) (now : Nat) (h : l.queue.isEmpty = fals
   obtain ⟨fw, fc, fl, fg, fp⟩ := hfr
   unfold FLink.takeBatch
   simp only [h, Bool.false_eq_true, if_false]
-  exact ⟨rfl, rfl, fw, fg, fc, fl, rfl⟩
+  refine ⟨?_, ?_, ?_, ?_, ?_, ?_, ?_⟩ <;> first | assumption | rfl | trivial
 
 theorem sendConnectionBatch_nonempty (l : FLink F) (now : Nat) (fn : List Nat) (h : l.queue.isEmpty = false) :
     (sendConnectionBatch l now fn).1 = (l.takeBatch now).1 ∧
@@ -253,6 +255,7 @@ theorem sendConnectionBatch_nonempty (l : FLink F) (now : Nat) (fn : List Nat) (
   · simp
   · simp
 
+omit [Scalar F] in
 theorem markForRecovery_facts (l : FLink F) :
     l.markForRecovery.queue = [] ∧ l.markForRecovery.core.window = 20000 ∧
     l.markForRecovery.core.connected = false ∧ l.markForRecovery.core.cong = l.core.cong ∧
@@ -308,6 +311,7 @@ theorem forwardVia_cases (s : Sys F) (sel : Nat) (pkt : List UInt8) (seq : Optio
     left
     exact ⟨by omega, hq1, hc1, rfl⟩
 
+omit [Scalar F] in
 /-- No link is stall-gated ⇒ `send_stall_probes` does nothing. -/
 theorem stallProbesGo_noop (pkt : List UInt8) (seq : Option Nat) (now sel : Nat) (ls : List (FLink F)) (i : Nat)
     (fn : List Nat) (h : ∀ l ∈ ls, l.stallGated = false) :
@@ -375,5 +379,378 @@ theorem handleSrtPacket_classic (s : Sys F) (pkt : List UInt8) (now : Nat)
       · rfl
 
 end scalar
+
+/-! ## Window rules on one connection -/
+
+theorem satMul_gt_iff (inf w : Int) (h0 : 0 ≤ inf) (hw : w < 2147483647) :
+    satMulI32 inf 1000 > w ↔ inf * 1000 > w := by
+  unfold satMulI32 I32_MIN I32_MAX
+  omega
+
+theorem ackClassic_eq_refAck (w inf : Int) (h0 : 0 ≤ inf) (hw : w < 2147483647) :
+    ackClassic w inf = refAck w inf := by
+  obtain ⟨-, hC, -, hM, hI, -, -, -⟩ := wconsts
+  have hiff := satMul_gt_iff inf w h0 hw
+  unfold ackClassic refAck
+  by_cases h : inf * 1000 > w
+  · rw [if_pos (by rw [hM]; exact hiff.2 h), if_pos h]; omega
+  · rw [if_neg (by rw [hM]; exact fun h' => h (hiff.1 h')), if_neg h]
+
+/-- "connected and has received anything" (`c->last_rcvd != 0` in the reference). -/
+def live (c : Conn) : Bool := c.connected && c.lastReceived.isSome
+
+theorem srtlaAck_classic_found (c : Conn) (seq : Int) (now : Nat)
+    (h : c.log.any (·.1 == seq) = true) (hw : c.window < 2147483647) :
+    c.srtlaAck seq true now =
+      ({ c with log := logErase c.log seq, inFlight := ((logErase c.log seq).length : Int), proofMs := now,
+                window := refAck c.window ((logErase c.log seq).length : Int) }, true) := by
+  unfold Conn.srtlaAck
+  rw [if_pos h]
+  simp only [if_true]
+  rw [ackClassic_eq_refAck _ _ (by omega) hw]
+
+theorem srtlaAck_notfound (c : Conn) (seq : Int) (cl : Bool) (now : Nat)
+    (h : c.log.any (·.1 == seq) = false) : c.srtlaAck seq cl now = (c, false) := by
+  unfold Conn.srtlaAck
+  rw [if_neg (by simp [h])]
+
+theorem srtlaAck_snd (c : Conn) (seq : Int) (cl : Bool) (now : Nat) :
+    (c.srtlaAck seq cl now).2 = c.log.any (·.1 == seq) := by
+  unfold Conn.srtlaAck
+  split
+  · rename_i h; rw [h]; cases cl <;> rfl
+  · rename_i h; simp only [Bool.not_eq_true] at h; rw [h]
+
+theorem ackGlobal_eq (c : Conn) :
+    c.ackGlobal = if live c then { c with window := refGlobal c.window } else c := by
+  obtain ⟨-, hC, -, -, -, -, -, -⟩ := wconsts
+  unfold Conn.ackGlobal live refGlobal
+  rw [hC]
+
+theorem nak_found (c : Conn) (seq : Int) (now : Nat) (h : c.log.any (·.1 == seq) = true) :
+    (c.nak seq now).2 = true ∧ (c.nak seq now).1.window = refNak c.window ∧
+    (c.nak seq now).1.connected = c.connected ∧ (c.nak seq now).1.lastReceived = c.lastReceived ∧
+    (c.nak seq now).1.log = logErase c.log seq ∧ (c.nak seq now).1.inFlight = ((logErase c.log seq).length : Int) := by
+  obtain ⟨hF, -, -, -, -, hD, -, -⟩ := wconsts
+  unfold Conn.nak
+  rw [if_pos h]
+  refine ⟨rfl, ?_, rfl, rfl, rfl, rfl⟩
+  show max (c.window - W_DECR) WINDOW_FLOOR = refNak c.window
+  rw [hF, hD]; rfl
+
+theorem nak_notfound (c : Conn) (seq : Int) (now : Nat) (h : c.log.any (·.1 == seq) = false) :
+    c.nak seq now = (c, false) := by
+  unfold Conn.nak
+  rw [if_neg (by simp [h])]
+
+theorem nak_snd (c : Conn) (seq : Int) (now : Nat) : (c.nak seq now).2 = c.log.any (·.1 == seq) := by
+  cases h : c.log.any (·.1 == seq)
+  · rw [nak_notfound c seq now h]
+  · exact (nak_found c seq now h).1
+
+/-! ## Fan-out: at most one link is charged -/
+
+theorem updateAt_const (ls : Links) (i : Nat) (c' : Conn) : updateAt ls i (fun _ => c') = ls.set i c' := by
+  apply List.ext_getElem?
+  intro j
+  unfold updateAt
+  rw [List.getElem?_mapIdx, List.getElem?_set]
+  by_cases h : i = j
+  · subst h
+    cases hj : ls[i]? with
+    | none =>
+      have : ¬ i < ls.length := by
+        intro hlt; rw [List.getElem?_eq_getElem hlt] at hj; cases hj
+      simp [this]
+    | some x =>
+      have : i < ls.length := by
+        rcases Nat.lt_or_ge i ls.length with hlt | hge
+        · exact hlt
+        · rw [List.getElem?_eq_none hge] at hj; cases hj
+      simp [this]
+  · have h' : ¬ j = i := fun e => h e.symm
+    simp [h, h']
+
+theorem srtlaAckOthers_cases (cs : Links) (j skip : Nat) (seq : Int) (cl : Bool) (now : Nat) :
+    srtlaAckOthers cs j skip seq cl now = cs ∨
+    ∃ k c, cs[k]? = some c ∧ (c.srtlaAck seq cl now).2 = true ∧
+      srtlaAckOthers cs j skip seq cl now = cs.set k (c.srtlaAck seq cl now).1 := by
+  induction cs generalizing j with
+  | nil => left; rfl
+  | cons c rest ih =>
+    unfold srtlaAckOthers
+    split
+    · rcases ih (j + 1) with h | ⟨k, d, h1, h2, h3⟩
+      · left; rw [h]
+      · right; exact ⟨k + 1, d, by simpa using h1, h2, by rw [h3]; rfl⟩
+    · generalize hr : c.srtlaAck seq cl now = r
+      obtain ⟨c', found⟩ := r
+      dsimp only
+      split
+      · rename_i hf
+        right
+        refine ⟨0, c, rfl, by rw [hr]; exact hf, ?_⟩
+        rw [hr]; rfl
+      · rcases ih (j + 1) with h | ⟨k, d, h1, h2, h3⟩
+        · left; rw [h]
+        · right; exact ⟨k + 1, d, by simpa using h1, h2, by rw [h3]; rfl⟩
+
+/-- One SRTLA-acknowledged number: the earned rule on at most one link (one that holds the number),
+then the global `+1` pass over every link — whether or not anybody held the number. -/
+theorem evSrtlaAck_cases (cs : Links) (idx : Nat) (seq : Int) (cl : Bool) (now : Nat) :
+    ∃ ls1, evSrtlaAck cs idx seq cl now = ls1.map Conn.ackGlobal ∧
+      (ls1 = cs ∨ ∃ k c, cs[k]? = some c ∧ (c.srtlaAck seq cl now).2 = true ∧
+        ls1 = cs.set k (c.srtlaAck seq cl now).1) := by
+  unfold evSrtlaAck
+  cases hi : cs[idx]? with
+  | none => exact ⟨cs, rfl, Or.inl rfl⟩
+  | some c =>
+    dsimp only
+    generalize hr : c.srtlaAck seq cl now = r
+    obtain ⟨c', found⟩ := r
+    dsimp only
+    split
+    · rename_i hf
+      refine ⟨_, rfl, Or.inr ⟨idx, c, hi, by rw [hr]; exact hf, ?_⟩⟩
+      rw [updateAt_const, hr]
+    · exact ⟨_, rfl, srtlaAckOthers_cases cs 0 idx seq cl now⟩
+
+theorem nakScan_cases (cs : Links) (seq : Int) (now : Nat) :
+    nakScan cs seq now = (cs, none) ∨
+    ∃ k c, cs[k]? = some c ∧ (c.nak seq now).2 = true ∧
+      nakScan cs seq now = (cs.set k (c.nak seq now).1, some k) := by
+  induction cs with
+  | nil => left; rfl
+  | cons c rest ih =>
+    unfold nakScan
+    generalize hr : c.nak seq now = r
+    obtain ⟨c', found⟩ := r
+    dsimp only
+    split
+    · rename_i hf
+      right
+      refine ⟨0, c, rfl, by rw [hr]; exact hf, ?_⟩
+      rw [hr]; rfl
+    · rcases ih with h | ⟨k, d, h1, h2, h3⟩
+      · left; rw [h]; rfl
+      · right; exact ⟨k + 1, d, by simpa using h1, h2, by rw [h3]; rfl⟩
+
+/-- `attribute_nak` charges at most one link, one that holds the number in its log. -/
+theorem attributeNak_cases (cs : Links) (trk : Tracker) (nak now : Nat) :
+    attributeNak cs trk nak now = (cs, none) ∨
+    ∃ k c, cs[k]? = some c ∧ (c.nak (toI32 nak) now).2 = true ∧
+      attributeNak cs trk nak now = (cs.set k (c.nak (toI32 nak) now).1, some k) := by
+  unfold attributeNak
+  dsimp only
+  split
+  · split
+    · rename_i pos _
+      split
+      · rename_i c hc
+        generalize hr : c.nak (toI32 nak) now = r
+        obtain ⟨c', found⟩ := r
+        dsimp only
+        split
+        · rename_i hf
+          right
+          refine ⟨pos, c, hc, by rw [hr]; exact hf, ?_⟩
+          rw [updateAt_const, hr]
+        · left; rfl
+      · left; rfl
+    · exact nakScan_cases cs _ now
+  · exact nakScan_cases cs _ now
+
+/-! ## The window vector -/
+
+/-- `(window, live)` of every link. -/
+def wv (cs : Links) : WVec := cs.map fun c => (c.window, live c)
+
+theorem length_applyAt (f : Int → Int) (ws : WVec) (k : Nat) : (applyAt f ws k).length = ws.length := by
+  induction ws generalizing k with
+  | nil => rfl
+  | cons p rest ih =>
+    obtain ⟨w, lv⟩ := p
+    cases k with
+    | zero => rfl
+    | succ k => simp only [applyAt, List.length_cons, ih]
+
+theorem wv_set (cs : Links) (k : Nat) (c c' : Conn) (f : Int → Int) (h : cs[k]? = some c)
+    (hw : c'.window = f c.window) (hl : live c' = live c) : wv (cs.set k c') = applyAt f (wv cs) k := by
+  induction cs generalizing k with
+  | nil => cases h
+  | cons d rest ih =>
+    cases k with
+    | zero =>
+      have : d = c := by simpa using h
+      subst this
+      simp only [List.set_cons_zero, wv, List.map_cons, applyAt, hw, hl]
+    | succ k =>
+      have h' : rest[k]? = some c := by simpa using h
+      have := ih k h'
+      simp only [wv] at this
+      simp only [List.set_cons_succ, wv, List.map_cons, applyAt, this]
+
+theorem wv_map_ackGlobal (cs : Links) :
+    wv (cs.map Conn.ackGlobal) = (wv cs).map fun p => if p.2 then (refGlobal p.1, p.2) else p := by
+  unfold wv
+  rw [List.map_map, List.map_map]
+  apply List.map_congr_left
+  intro c _
+  simp only [Function.comp]
+  rw [ackGlobal_eq]
+  cases h : live c
+  · simp [h]
+  · simp [h]
+
+def Bounded (ws : WVec) : Prop := ∀ p ∈ ws, p.1 ≤ 60000
+
+theorem mem_applyAt (f : Int → Int) (ws : WVec) (k : Nat) (p : Int × Bool) (h : p ∈ applyAt f ws k) :
+    p ∈ ws ∨ ∃ q ∈ ws, p = (f q.1, q.2) := by
+  induction ws generalizing k with
+  | nil => cases h
+  | cons q rest ih =>
+    obtain ⟨w, lv⟩ := q
+    cases k with
+    | zero =>
+      simp only [applyAt, List.mem_cons] at h
+      rcases h with h | h
+      · right; exact ⟨(w, lv), List.mem_cons_self, h⟩
+      · left; exact List.mem_cons_of_mem _ h
+    | succ k =>
+      simp only [applyAt, List.mem_cons] at h
+      rcases h with h | h
+      · left; rw [h]; exact List.mem_cons_self
+      · rcases ih k h with h1 | ⟨q, hq, e⟩
+        · left; exact List.mem_cons_of_mem _ h1
+        · right; exact ⟨q, List.mem_cons_of_mem _ hq, e⟩
+
+theorem bounded_sack (ws : WVec) (e : Option (Nat × Int)) (h : Bounded ws) : Bounded (refSackEvent ws e) := by
+  have h1 : Bounded (match e with
+      | some (k, n) => applyAt (fun w => refAck w n) ws k
+      | none => ws) := by
+    cases e with
+    | none => exact h
+    | some kn =>
+      obtain ⟨k, n⟩ := kn
+      intro p hp
+      rcases mem_applyAt _ ws k p hp with hm | ⟨q, hq, rfl⟩
+      · exact h p hm
+      · have := h q hq
+        show refAck q.1 n ≤ 60000
+        unfold refAck; split <;> omega
+  intro p hp
+  unfold refSackEvent at hp
+  obtain ⟨q, hq, rfl⟩ := List.mem_map.1 hp
+  have := h1 q hq
+  split
+  · show refGlobal q.1 ≤ 60000
+    unfold refGlobal; omega
+  · exact this
+
+theorem bounded_nak (ws : WVec) (k : Nat) (h : Bounded ws) : Bounded (refNakEvent ws k) := by
+  intro p hp
+  rcases mem_applyAt _ ws k p hp with hm | ⟨q, hq, rfl⟩
+  · exact h p hm
+  · have := h q hq
+    show refNak q.1 ≤ 60000
+    unfold refNak; omega
+
+theorem bounded_wv (cs : Links) : Bounded (wv cs) ↔ ∀ c ∈ cs, c.window ≤ 60000 := by
+  unfold Bounded wv
+  constructor
+  · intro h c hc; exact h (c.window, live c) (List.mem_map.2 ⟨c, hc, rfl⟩)
+  · intro h p hp
+    obtain ⟨c, hc, rfl⟩ := List.mem_map.1 hp
+    exact h c hc
+
+theorem length_wv (cs : Links) : (wv cs).length = cs.length := by unfold wv; exact List.length_map _
+
+theorem length_sack (ws : WVec) (e : Option (Nat × Int)) : (refSackEvent ws e).length = ws.length := by
+  unfold refSackEvent
+  rw [List.length_map]
+  cases e with
+  | none => rfl
+  | some kn => obtain ⟨k, n⟩ := kn; exact length_applyAt _ _ _
+
+theorem length_nak (ws : WVec) (k : Nat) : (refNakEvent ws k).length = ws.length := length_applyAt _ _ _
+
+/-- One SRTLA-acknowledged number in classic mode is one reference SACK event on the window vector. -/
+theorem wv_evSrtlaAck (cs : Links) (idx : Nat) (seq : Int) (now : Nat) (hb : ∀ c ∈ cs, c.window ≤ 60000) :
+    ∃ e, wv (evSrtlaAck cs idx seq true now) = refSackEvent (wv cs) e := by
+  obtain ⟨ls1, e1, hcase⟩ := evSrtlaAck_cases cs idx seq true now
+  rw [e1, wv_map_ackGlobal]
+  rcases hcase with rfl | ⟨k, c, hk, hf, rfl⟩
+  · exact ⟨none, rfl⟩
+  · have hany : c.log.any (·.1 == seq) = true := by rw [← srtlaAck_snd c seq true now]; exact hf
+    have hw : c.window < 2147483647 := by
+      have := hb c (List.mem_of_getElem? hk); omega
+    refine ⟨some (k, ((logErase c.log seq).length : Int)), ?_⟩
+    unfold refSackEvent
+    dsimp only
+    rw [wv_set cs k c _ (fun w => refAck w ((logErase c.log seq).length : Int)) hk]
+    · rw [srtlaAck_classic_found c seq now hany hw]
+    · rw [srtlaAck_classic_found c seq now hany hw]; rfl
+
+/-- One NAK is at most one reference NAK event on the window vector. -/
+theorem wv_attributeNak (cs : Links) (trk : Tracker) (nak now : Nat) :
+    wv (attributeNak cs trk nak now).1 = wv cs ∨
+    ∃ k, wv (attributeNak cs trk nak now).1 = refNakEvent (wv cs) k := by
+  rcases attributeNak_cases cs trk nak now with h | ⟨k, c, hk, hf, h⟩
+  · left; rw [h]
+  · right
+    have hany : c.log.any (·.1 == toI32 nak) = true := by rw [← nak_snd c _ now]; exact hf
+    obtain ⟨-, n2, n3, n4, -, -⟩ := nak_found c (toI32 nak) now hany
+    refine ⟨k, ?_⟩
+    rw [h]
+    exact wv_set cs k c _ refNak hk n2 (by unfold live; rw [n3, n4])
+
+theorem sacks_fold (sacks : List Nat) (cs : Links) (idx now : Nat) (hb : ∀ c ∈ cs, c.window ≤ 60000) :
+    ∃ es : List (Option (Nat × Int)), es.length = sacks.length ∧
+      wv (sacks.foldl (fun cs a => evSrtlaAck cs idx (toI32 a) true now) cs) = es.foldl refSackEvent (wv cs) := by
+  induction sacks generalizing cs with
+  | nil => exact ⟨[], rfl, rfl⟩
+  | cons a rest ih =>
+    obtain ⟨e, he⟩ := wv_evSrtlaAck cs idx (toI32 a) now hb
+    have hb' : ∀ c ∈ evSrtlaAck cs idx (toI32 a) true now, c.window ≤ 60000 := by
+      rw [← bounded_wv, he]
+      exact bounded_sack _ e ((bounded_wv cs).2 hb)
+    obtain ⟨es, hl, hes⟩ := ih (evSrtlaAck cs idx (toI32 a) true now) hb'
+    refine ⟨e :: es, by simp [hl], ?_⟩
+    simp only [List.foldl_cons]
+    rw [hes, he]
+
+theorem naks_fold (naks : List Nat) (cs : Links) (trk : Tracker) (now : Nat) :
+    ∃ ns : List Nat, ns.length ≤ naks.length ∧
+      wv (naks.foldl (fun cs n => (attributeNak cs trk n now).1) cs) = ns.foldl refNakEvent (wv cs) := by
+  induction naks generalizing cs with
+  | nil => exact ⟨[], Nat.le_refl _, rfl⟩
+  | cons a rest ih =>
+    obtain ⟨ns, hl, hns⟩ := ih (attributeNak cs trk a now).1
+    simp only [List.foldl_cons]
+    rcases wv_attributeNak cs trk a now with h | ⟨k, h⟩
+    · exact ⟨ns, by simp only [List.length_cons]; omega, by rw [hns, h]⟩
+    · exact ⟨k :: ns, by simp only [List.length_cons]; omega, by rw [hns, h]; rfl⟩
+
+theorem length_foldl_sack (es : List (Option (Nat × Int))) (ws : WVec) :
+    (es.foldl refSackEvent ws).length = ws.length := by
+  induction es generalizing ws with
+  | nil => rfl
+  | cons e rest ih => simp only [List.foldl_cons]; rw [ih, length_sack]
+
+theorem length_foldl_nak (ns : List Nat) (ws : WVec) : (ns.foldl refNakEvent ws).length = ws.length := by
+  induction ns generalizing ws with
+  | nil => rfl
+  | cons e rest ih => simp only [List.foldl_cons]; rw [ih, length_nak]
+
+theorem bounded_foldl_sack (es : List (Option (Nat × Int))) (ws : WVec) (h : Bounded ws) :
+    Bounded (es.foldl refSackEvent ws) := by
+  induction es generalizing ws with
+  | nil => exact h
+  | cons e rest ih => simp only [List.foldl_cons]; exact ih _ (bounded_sack ws e h)
+
+theorem bounded_foldl_nak (ns : List Nat) (ws : WVec) (h : Bounded ws) : Bounded (ns.foldl refNakEvent ws) := by
+  induction ns generalizing ws with
+  | nil => exact h
+  | cons e rest ih => simp only [List.foldl_cons]; exact ih _ (bounded_nak ws e h)
 
 end Srtla.ClassicRef
